@@ -1127,18 +1127,20 @@ where
                 return Err(Error::FileAlreadyExists);
             }
             Err(Error::NotFound) => {
-                // perfect, let's make it - unless the name is one of the dot
-                // names: those only ever refer to directories that exist
-                // already (a root directory has neither)
-                if sfn == ShortFileName::this_dir() || sfn == ShortFileName::parent_dir() {
-                    return Err(Error::FilenameError(crate::FilenameError::MisplacedPeriod));
-                }
+                // perfect, let's make it
             }
             Err(e) => {
                 // Some other error - tell them about it
                 return Err(e);
             }
         };
+
+        // The name is free - unless it is one of the dot names: those only
+        // ever refer to directories that exist already (a root directory has
+        // neither), whether or not a volume label happens to carry the name.
+        if sfn == ShortFileName::this_dir() || sfn == ShortFileName::parent_dir() {
+            return Err(Error::FilenameError(crate::FilenameError::MisplacedPeriod));
+        }
 
         let att = Attributes::create_from_fat(Attributes::DIRECTORY);
 
